@@ -33,6 +33,7 @@ import (
 	compact_float "github.com/kstenerud/go-compact-float"
 	compact_time "github.com/kstenerud/go-compact-time"
 	"github.com/kstenerud/go-concise-encoding/ce/events"
+	"github.com/kstenerud/go-concise-encoding/conversions"
 	"github.com/kstenerud/go-describe"
 )
 
@@ -101,10 +102,19 @@ func PanicBadEventBuildingValue(builder Builder, v reflect.Value, eventFmt strin
 	panic(fmt.Errorf("%v (building type %v) cannot respond to %v", reflect.TypeOf(builder), v.Type(), fmt.Sprintf(eventFmt, args...)))
 }
 
+// Describe a value for an error message. Big floats are described at bounded
+// cost, whatever their exponent.
+func describeValue(value interface{}) string {
+	if bf, ok := value.(*big.Float); ok && bf != nil {
+		return fmt.Sprintf("*big.Float<%v>", conversions.DescribeBigFloat(bf))
+	}
+	return describe.D(value)
+}
+
 // Report that a builder couldn't convert between types. This can happen if
 // source values are out of range, or incompatible with the destination type.
 func PanicCannotConvert(value interface{}, dstType reflect.Type) {
-	panic(fmt.Errorf("cannot convert %v (type %v) to type %v", describe.D(value), reflect.TypeOf(value), dstType))
+	panic(fmt.Errorf("cannot convert %v (type %v) to type %v", describeValue(value), reflect.TypeOf(value), dstType))
 }
 
 // Report that a builder couldn't convert between types. This can happen if
@@ -116,7 +126,7 @@ func PanicCannotConvertRV(value reflect.Value, dstType reflect.Type) {
 // Report that an error occurred while converting between types.
 // This normally indicates a bug.
 func PanicErrorConverting(value interface{}, dstType reflect.Type, err error) {
-	panic(fmt.Errorf("error converting %v (type %v) to type %v: %v", describe.D(value), reflect.TypeOf(value), dstType, err))
+	panic(fmt.Errorf("error converting %v (type %v) to type %v: %v", describeValue(value), reflect.TypeOf(value), dstType, err))
 }
 
 // Report that an error occurred while building from custom binary data.
